@@ -135,7 +135,7 @@ Proof.
   destruct e; try (apply (Out_same s); [| | | |exact O]; break_step H; use_fifo_pop; simp_state; try reflexivity;
                    repeat match goal with |- context [if ?c then _ else _] => destruct c end; simp_state; reflexivity).
   - (* CT_IO *)
-    unfold step in H. destruct (negb (is_idle s)); [discriminate|].
+    unfold step in H. destruct (negb (serving s && negb (errored s))); [discriminate|].
     destruct (pend_writes s) as [|[[w seq] lines] rest]; [inversion H; subst; exact O|].
     destruct O as [(k & txt & K & B & T & Sc) O2 O3 O4].
     pose proof (text_items_all_text w seq 0 (Z.to_nat lines)) as TT.
@@ -149,7 +149,7 @@ Proof.
     + discriminate.
     + assumption.
   - (* CT_DELAYEND *)
-    unfold step in H. destruct (delayed s && is_idle s) eqn:C; [|discriminate]. inversion H; subst; clear H.
+    unfold step in H. destruct (delayed s && serving s) eqn:C; [|discriminate]. inversion H; subst; clear H.
     apply andb_prop in C as [D _]. destruct O as [_ _ O3 O4]. destruct (O3 D) as (F0 & W0).
     constructor; simp_state; unfold screen; simp_state; rewrite ?F0, ?W0.
     + exists 0, []. repeat split; try reflexivity; try lia. intros _. exists [], []. split; reflexivity.
@@ -236,7 +236,7 @@ Theorem write_logged s s' w seq lines rest :
   step s CT_IO = Some s' -> pend_writes s = (w, seq, lines) :: rest -> delayed s = false ->
   wlog s' = wlog s ++ text_items w seq 0 (Z.to_nat lines).
 Proof.
-  unfold step. destruct (negb (is_idle s)); [discriminate|]. intros H Pw D. rewrite Pw, D in H. inversion H; subst. reflexivity.
+  unfold step. destruct (negb (serving s && negb (errored s))); [discriminate|]. intros H Pw D. rewrite Pw, D in H. inversion H; subst. reflexivity.
 Qed.
 
 (* ---------- C04 ---------- *)
